@@ -70,6 +70,8 @@ func suiteNode(c *Ctx) {
 	c.Class("scenario/equivocation-commit")
 	scenarioPaddedPrepare(c)
 	c.Class("scenario/padded-prepare")
+	scenarioForeignEmbeddedProposal(c)
+	c.Class("scenario/nv-foreign-embedded-proposal")
 	// adversarial scenarios: Byzantine members of total weight <= f, all strategies
 	nadv := 60
 	if c.Thorough() {
@@ -416,6 +418,46 @@ func scenarioPaddedPrepare(c *Ctx) *Net {
 		net.timeout(n, false)
 	}
 	// the votes for view 1 reach its (correct) leader
+	for len(net.pool) > 0 {
+		f := net.pool[0]
+		net.pool = net.pool[1:]
+		if typ(f) == "*interfaces.ViewChangeMessage" {
+			net.deliverFlight(f)
+		}
+	}
+	return net
+}
+
+
+// nv-foreign-embedded-proposal: the Byzantine leader of view 1 sends a NEW_VIEW that is by the book
+// except that the PREPREPARE embedded in it names another instance id (its signature covers exactly
+// that reference). The correct members adopt it, become prepared, time out and send their
+// VIEW_CHANGE — with the proof extracted from that proposal — to the correct leader of view 2.
+func scenarioForeignEmbeddedProposal(c *Ctx) *Net {
+	net := NewNet(c, NetOpts{N: 4, Weights: []uint64{1, 1, 1, 1}, ByzIdx: []int{1}, Inst: 100}, "nv-foreign-embedded-proposal n=4 byz=[1]")
+	net.start()
+	a := net.adv
+	typ := func(f *Flight) string { return fmt.Sprintf("%T", interfaces.ToConsensusMessage(f.Raw)) }
+	net.pool = nil // the proposal of view 0 reaches nobody
+	for _, n := range net.order {
+		net.timeout(n, false)
+	}
+	net.pool = nil // votes for view 1 went to the Byzantine leader (it has seen them)
+	blk := a.newBlock(1, false)
+	votes := a.genuineVotes(1, 1, true, nil)
+	pp := a.ppContent(memberId(1), protocol.LEAN_HELIX_PREPREPARE, 999, 1, 1, blockHash(blk)) // another instance id inside the embedded proposal
+	a.toAll(a.mkNV(memberId(1), protocol.LEAN_HELIX_NEW_VIEW, 100, 1, 1, votes, pp, blk), "nv-embedded-pp-foreign-instance")
+	// PREPAREs are delivered (the members become prepared), COMMITs are not
+	var rest []*Flight
+	for _, f := range net.pool {
+		if typ(f) == "*interfaces.PrepareMessage" {
+			net.deliverFlight(f)
+		}
+	}
+	net.pool = rest
+	for _, n := range net.order {
+		net.timeout(n, false)
+	}
 	for len(net.pool) > 0 {
 		f := net.pool[0]
 		net.pool = net.pool[1:]
